@@ -6,7 +6,7 @@ CFG = dict(
          "(r = 0 in a third of the draws), fully interleaved / blocks / perturbed blocks; mode win drives the real CountingWindow with its "
          "goroutine (Add, OutputChan, exact quiescence barrier buffered+emitted = sent; flush and STATETTL reap ops in between), mode sql "
          "runs SELECT ..., count(*), collect(id), first_value(id), last_value(id) ... GROUP BY ..., CountingWindow(N) with sentinel rows as barrier; "
-         "distinct = distinct (cfg, op list)",
+         "distinct = distinct (cfg, op list) Added late: management ops `stats` (GetStats + ResetStats) and `trig` (Trigger / TriggerWindow) between the rows. Every fifth case runs under WithHighPerformance (`preset high`), for C05/C06/C12/C13/C14/C16/C20 another fifth under WithLowLatency (`preset low`); every seventh case follows a noise prelude (failing statements, malformed rows, panicking sink / function in other instances).",
     assumptions=["the window's single goroutine is the only consumer of the FIFO triggerChan, so its critical sections run in arrival order (trusted Go channel semantics); the op list is that order",
                  "no key state is reaped by STATETTL (hypothesis noReap of the theorems; reap ops are generated and compared with the model but excluded from the oracle)",
                  "the output channel (default 1000 batches) never overflows: the drop-oldest overflow strategy of sendResult is outside the model",
